@@ -74,6 +74,77 @@ Proof.
   rewrite ins_e_in, IH. cbn [In]. intuition.
 Qed.
 
+(* ---- history independence from the LIVE virtual nodes only ------------------------------------- *)
+(* a node's entry of the map, if it has at least one replica *)
+Definition member_lookup (n : Z) (m : amap) : option (Z * Z) :=
+  match alookup n m with
+  | Some (r, v) => if 0 <? r then Some (r, v) else None
+  | None => None
+  end.
+
+Section LiveEquiv.
+Variable vh : Z -> Z -> Z.
+Variable R : Z.
+Variable U : Z -> Prop.
+Hypothesis cf : collision_free_on vh R U.
+
+Lemma live_equiv_get_eq : forall s1 m1 s2 m2,
+  Canon vh R U s1 m1 -> Canon vh R U s2 m2 ->
+  (forall x h, Live vh m1 x h <-> Live vh m2 x h) ->
+  keys s1 = keys s2 /\ (forall h, bucket h (ring s1) = bucket h (ring s2)) /\
+  forall hp ihp, get s1 hp ihp = get s2 hp ihp.
+Proof.
+  intros s1 m1 s2 m2 [I1 L1 _ Le1 _] [I2 L2 _ Le2 _] Hl.
+  assert (Hb : forall h, bucket h (ring s1) = bucket h (ring s2)).
+  { intros h. apply le1_eq; auto. intros x. rewrite L1, L2. apply Hl. }
+  assert (Hk : keys s1 = keys s2).
+  { apply sorted_cnt_eq; [exact (inv_sorted _ _ _ I1) | exact (inv_sorted _ _ _ I2)|].
+    intros h. rewrite (inv_cnt _ _ _ I1), (inv_cnt _ _ _ I2), Hb. reflexivity. }
+  split; [exact Hk|]. split; [exact Hb|]. intros hp ihp.
+  assert (Hempty : forall s, Inv vh R s -> (ring s = [] <-> keys s = [])).
+  { intros s I. split.
+    - intros Er. destruct (keys s) as [|a l] eqn:Ek; [reflexivity|]. exfalso.
+      pose proof (inv_cnt _ _ _ I a) as Hc. rewrite Er, Ek in Hc. cbn [count_occ bucket length] in Hc.
+      destruct (Z.eq_dec a a); [discriminate | congruence].
+    - intros Ek. destruct (nil_or _ (ring s)) as [Er|Er]; [exact Er|].
+      exfalso. exact (inv_keys_nonempty vh R s I Er Ek). }
+  destruct (nil_or _ (ring s1)) as [E1|E1].
+  - assert (E2 : ring s2 = []).
+    { apply (Hempty s2 I2). rewrite <- Hk. apply (Hempty s1 I1). exact E1. }
+    rewrite !get_unfold, E1, E2. reflexivity.
+  - assert (E2 : ring s2 <> []).
+    { intros Er. apply E1. apply (Hempty s1 I1). rewrite Hk. apply (Hempty s2 I2). exact Er. }
+    rewrite (get_unfold_ne s1 hp ihp E1), (get_unfold_ne s2 hp ihp E2).
+    unfold get_ne. rewrite Hk. destruct (keys s2); [reflexivity|]. rewrite Hb. reflexivity.
+Qed.
+
+Lemma member_lookup_live : forall m1 m2 x h,
+  (forall n, member_lookup n m1 = member_lookup n m2) -> Live vh m1 x h -> Live vh m2 x h.
+Proof.
+  intros m1 m2 x h Hm (r & i & Ha & Hi & Eh). exists r, i. split; [|auto].
+  specialize (Hm (nrepr x)). unfold member_lookup in Hm. rewrite Ha in Hm.
+  assert (Hr : (0 <? r) = true) by (apply Z.ltb_lt; lia). rewrite Hr in Hm.
+  destruct (alookup (nrepr x) m2) as [[r2 v2]|]; [|discriminate].
+  destruct (0 <? r2); [inversion Hm; reflexivity | discriminate].
+Qed.
+
+(* The ring and every Get depend only on the nodes that have at least one replica, their replica
+   counts and values: entries with zero replicas (AddWithWeight(node, 0), AddWithReplicas(node, 0))
+   and the order of everything do not matter. *)
+Lemma history_independent_members_l : forall ops1 ops2,
+  ops_in_U U ops1 -> ops_in_U U ops2 ->
+  (forall n, member_lookup n (amap_run R ops1) = member_lookup n (amap_run R ops2)) ->
+  keys (run vh R ops1) = keys (run vh R ops2) /\
+  (forall h, bucket h (ring (run vh R ops1)) = bucket h (ring (run vh R ops2))) /\
+  forall hp ihp, get (run vh R ops1) hp ihp = get (run vh R ops2) hp ihp.
+Proof.
+  intros ops1 ops2 U1 U2 Hm.
+  apply (live_equiv_get_eq _ (amap_run R ops1) _ (amap_run R ops2));
+    [apply canon_run; assumption | apply canon_run; assumption|].
+  intros x h. split; apply member_lookup_live; [exact Hm | intros n; symmetry; apply Hm].
+Qed.
+End LiveEquiv.
+
 Section OrderClauses.
 Variable t : list (Z * list Z).
 Variable R : Z.
@@ -115,30 +186,10 @@ Lemma same_canon_same_get : forall ops1 ops2 hp ihp,
   get (run vh R ops1) hp ihp = get (run vh R ops2) hp ihp.
 Proof.
   intros ops1 ops2 hp ihp U1 U2 E.
-  destruct (canon_run vh R U cf_on ops1 U1) as [I1 L1 _ Le1 _].
-  destruct (canon_run vh R U cf_on ops2 U2) as [I2 L2 _ Le2 _].
   destruct (amap_wf_run t R ops1 HR U1) as [N1 _]. destruct (amap_wf_run t R ops2 HR U2) as [N2 _].
-  set (s1 := run vh R ops1) in *. set (s2 := run vh R ops2) in *.
-  assert (Hb : forall h, bucket h (ring s1) = bucket h (ring s2)).
-  { intros h. apply le1_eq; auto. intros x. rewrite L1, L2. apply canon_map_live; assumption. }
-  assert (Hk : keys s1 = keys s2).
-  { apply sorted_cnt_eq; [exact (inv_sorted _ _ _ I1) | exact (inv_sorted _ _ _ I2)|].
-    intros h. rewrite (inv_cnt _ _ _ I1), (inv_cnt _ _ _ I2), Hb. reflexivity. }
-  assert (Hempty : forall s, Inv vh R s -> (ring s = [] <-> keys s = [])).
-  { intros s I. split.
-    - intros Er. destruct (keys s) as [|a l] eqn:Ek; [reflexivity|]. exfalso.
-      pose proof (inv_cnt _ _ _ I a) as Hc. rewrite Er, Ek in Hc. cbn [count_occ bucket length] in Hc.
-      destruct (Z.eq_dec a a); [discriminate | congruence].
-    - intros Ek. destruct (nil_or _ (ring s)) as [Er|Er]; [exact Er|].
-      exfalso. exact (inv_keys_nonempty vh R s I Er Ek). }
-  destruct (nil_or _ (ring s1)) as [E1|E1].
-  - assert (E2 : ring s2 = []).
-    { apply (Hempty s2 I2). rewrite <- Hk. apply (Hempty s1 I1). exact E1. }
-    rewrite !get_unfold, E1, E2. reflexivity.
-  - assert (E2 : ring s2 <> []).
-    { intros Er. apply E1. apply (Hempty s1 I1). rewrite Hk. apply (Hempty s2 I2). exact Er. }
-    rewrite (get_unfold_ne s1 hp ihp E1), (get_unfold_ne s2 hp ihp E2).
-    unfold get_ne. rewrite Hk. destruct (keys s2); [reflexivity|]. rewrite Hb. reflexivity.
+  apply (live_equiv_get_eq vh R U _ (amap_run R ops1) _ (amap_run R ops2));
+    [apply canon_run; [exact cf_on | exact U1] | apply canon_run; [exact cf_on | exact U2]|].
+  intros x h. apply canon_map_live; assumption.
 Qed.
 
 (* minimal disruption in the form the check uses *)
